@@ -12,6 +12,7 @@ import (
 	"strings"
 
 	"github.com/virus-evolution/gofasta/pkg/fastaio"
+	"github.com/virus-evolution/gofasta/pkg/vhook"
 )
 
 // this is defined elsewhere, but for reference:
@@ -104,6 +105,7 @@ func findClosestN(query fastaio.EncodedFastaRecord, catchmentSize int, maxdist f
 		rearrangeCatchment(&neighbours, len(neighbours.catchment))
 	}
 
+	vhook.Ready("closest.findClosestN", neighbours.qidx)
 	cOut <- neighbours
 }
 
@@ -259,6 +261,7 @@ func ClosestN(catchmentSize int, maxdist float64, query, target io.Reader, measu
 
 	for i := 0; i < nQ; i++ {
 		result := <-cResults
+		vhook.Recv("closest.ClosestN", result.qidx)
 		QResultsArray[result.qidx] = result
 	}
 
